@@ -218,7 +218,21 @@ def invalid_request(a, w, rng, rec, tg):
         return getattr(ce, meth)(*args, *tg, **kw)
     try:
         if what == "kraus-not-trace-preserving":
-            result = call("apply_kraus", _J([0.5 * np.eye(D, dtype=complex), 0.5 * np.eye(D, dtype=complex)]))
+            kt = a.get("ktype", "scaled")
+            if kt == "scaled":
+                bad_set = [0.5 * np.eye(D, dtype=complex), 0.5 * np.eye(D, dtype=complex)]
+            else:
+                K = np.eye(D, dtype=complex)
+                if kt == "imaginary-overlap":       # K^dagger K = I + iA, A real antisymmetric: the real part is the identity
+                    K[0, 1], K[1, 1] = 0.6j, 0.8
+                elif kt == "real-overlap":
+                    K[0, 1], K[1, 1] = 0.6, 0.8
+                elif kt == "one-diagonal-entry":
+                    K[D - 1, D - 1] = 0.9
+                else:                                 # too large
+                    K = 1.1 * K
+                bad_set = [K]
+            result = call("apply_kraus", _J(bad_set))
         elif what == "kraus-wrong-size":
             result = call("apply_kraus", _J(complete_set(D + 1, 2, 3)))
         elif what == "povm-wrong-size":
